@@ -39,6 +39,7 @@ type Query struct {
 	NHyps, NRelevant int
 	HypSrc           []string
 	lazyInst         bool // build only QScript on the first call of full()
+	noHybrid         bool
 }
 
 func (b *Builder) child() *Builder {
@@ -304,7 +305,7 @@ func (x *Exec) fullScript(ob *Obligation, q *Query, hyps []qhyp, goalConjs []con
 	// hybrid script first: flat universal hypotheses stay quantified (E-matching in the solver),
 	// alternating ones are instantiated by the generator. The fully generator-instantiated script
 	// (quantifier-free, yields models) is built when the hybrid one does not prove the goal.
-	if !ob.mustSat && q.lazyInst && useHybrid {
+	if !ob.mustSat && q.lazyInst && (useHybrid || (x.con != nil && x.con.Hybrid)) && !q.noHybrid {
 		func() {
 			defer func() {
 				if r := recover(); r != nil {
@@ -322,6 +323,14 @@ func (x *Exec) fullScript(ob *Obligation, q *Query, hyps []qhyp, goalConjs []con
 		if q.QScript != "" {
 			return
 		}
+	}
+	if ob.mustSat && x.con != nil && x.con.Hybrid {
+		// cover in a contract with solver-side quantifiers: the hypotheses stay quantified; the solver
+		// can refute them (vacuity found) but will rarely produce a model
+		lines, _, _ := x.instantiate(ob, hyps, nil, nil, true)
+		q.Script = x.b.Script(ob.mark, append(lines, "(assert "+ob.guard.S+")"), tFalse, nil)
+		q.SizeB = len(q.Script)
+		return
 	}
 	lines, goal, cands := x.instantiate(ob, hyps, goalConjs, replaced, false)
 	q.CandN = cands.size()
@@ -522,6 +531,7 @@ func (x *Exec) instantiate(ob *Obligation, hyps []qhyp, goalConjs []conj, replac
 			if hybrid {
 				n.canonQ = true
 				n.hybrid = true
+				n.hybridAll = x.con != nil && x.con.Hybrid
 			}
 			return &n
 		}
